@@ -181,38 +181,41 @@ type vfMsgSpec struct {
 type vfDelivery struct {
 	sub string
 	id  string
+	raw string // raw message ID
 }
 
 type vfGW struct {
-	x        *vfExec
-	cfg      *vfGWCfg
-	w        *vfWorld
-	n        *vfNode
-	fakes    map[string]*vfFake
-	order    []string // peer labels in config order
-	pcfg     map[string]vfPeerCfg
-	conn     map[string]bool
-	gated    map[string]bool
-	appMu    sync.Mutex
-	app      map[peer.ID]float64
-	topics   map[string]*Topic
-	subs     map[string][]*Subscription // live subscriptions per topic
-	relays   map[string][]RelayCancelFunc
-	nsubs    int
-	msgs     map[string]vfMsgSpec
-	trace    *vfMemTracer
-	t0       time.Time
-	wire     map[string][]vfRecv // frames received by each fake during the current step
-	deliv    []vfDelivery        // deliveries during the current step
-	lastPts  []vfChoicePoint
-	lpubErr  map[string]string
-	localID  map[string]string // message ID of a locally published message -> its label
-	lmu      sync.Mutex
-	vmu      sync.Mutex
-	valCalls map[string]int // "validator|message" -> invocations
-	valPend  []*vfValInv
-	valLog   []string
-	held     map[string]bool // NewStream to this peer is blocked
+	x         *vfExec
+	cfg       *vfGWCfg
+	w         *vfWorld
+	n         *vfNode
+	fakes     map[string]*vfFake
+	order     []string // peer labels in config order
+	pcfg      map[string]vfPeerCfg
+	conn      map[string]bool
+	gated     map[string]bool
+	appMu     sync.Mutex
+	app       map[peer.ID]float64
+	topics    map[string]*Topic
+	subs      map[string][]*Subscription // live subscriptions per topic
+	relays    map[string][]RelayCancelFunc
+	nsubs     int
+	msgs      map[string]vfMsgSpec
+	trace     *vfMemTracer
+	t0        time.Time
+	wire      map[string][]vfRecv // frames received by each fake during the current step
+	deliv     []vfDelivery        // deliveries during the current step
+	lastPts   []vfChoicePoint
+	lpubErr   map[string]string
+	localID   map[string]string // message ID of a locally published message -> its label
+	lmu       sync.Mutex
+	vmu       sync.Mutex
+	valCalls  map[string]int // "validator|message" -> invocations
+	valPend   []*vfValInv
+	valLog    []string
+	held      map[string]bool // NewStream to this peer is blocked
+	cancelled []*Subscription
+	closeErr  map[string]string
 }
 
 type vfMemTracer struct {
@@ -469,7 +472,11 @@ func (g *vfGW) topic(t string) *Topic {
 	if tp, ok := g.topics[t]; ok {
 		return tp
 	}
-	tp, err := g.n.ps.Join(t)
+	var topts []TopicOpt
+	if g.cfg.Extra["fanout_only"] == t {
+		topts = append(topts, FanoutOnly())
+	}
+	tp, err := g.n.ps.Join(t, topts...)
 	if err != nil {
 		panic(err)
 	}
@@ -557,7 +564,7 @@ func (g *vfGW) collect() {
 					if !ok {
 						goto next
 					}
-					g.deliv = append(g.deliv, vfDelivery{sub: fmt.Sprintf("%s#%d", t, i), id: g.msgLabel(m.Message)})
+					g.deliv = append(g.deliv, vfDelivery{sub: fmt.Sprintf("%s#%d", t, i), id: g.msgLabel(m.Message), raw: DefaultMsgIdFn(m.Message)})
 					continue
 				default:
 				}
@@ -651,11 +658,24 @@ func (g *vfGW) apply(evFull string) {
 			synctest.Wait()
 			g.collect() // drain before dropping the handle
 			g.subs[arg(1)] = l[:len(l)-1]
+			g.cancelled = append(g.cancelled, s)
+		}
+	case "close":
+		if tp, ok := g.topics[arg(1)]; ok {
+			if err := tp.Close(); err == nil {
+				delete(g.topics, arg(1))
+			} else {
+				if g.closeErr == nil {
+					g.closeErr = map[string]string{}
+				}
+				g.closeErr[arg(1)] = err.Error()
+			}
 		}
 	case "relay":
 		c, err := g.topic(arg(1)).Relay()
 		if err != nil {
-			panic(err)
+			g.lpubErr["relay:"+arg(1)] = err.Error() // e.g. ErrFanoutOnlyTopic
+			break
 		}
 		g.relays[arg(1)] = append(g.relays[arg(1)], c)
 	case "unrelay":
